@@ -71,8 +71,21 @@ def run_paths(model, key: str, text) -> List[Tuple[Dict[str, Any], Tuple]]:
                 comps[(zone, name)] = Opaque(f"{zone}.{name}")
             return comps[(zone, name)]
 
+        def time_replace(_it, args, kwargs):
+            t, kw = args
+            if set(kw) - {"microsecond", "tzinfo", "fold"}:
+                raise Unsupported(f"time.replace({sorted(kw)})")
+            return t
+
+        def make_time(_it, args, kwargs):
+            vals = list(args) + [0] * (4 - len(args))
+            return Obj("datetime.time", {"hour": kwargs.get("hour", vals[0]), "minute": kwargs.get("minute", vals[1]), "second": kwargs.get("second", vals[2]),
+                                         "microsecond": kwargs.get("microsecond", vals[3])})
+
         def same_wallclock(_it, args, kwargs):
             a, b = args
+            if isinstance(b, Obj) and b.cls == "datetime.time":
+                return all(_it.eq(a.fields[c], b.fields[c]) for c in ("hour", "minute", "second")) and b.fields["microsecond"] == 0
             if not (isinstance(b, Obj) and b.cls.endswith("AbstractTime")):
                 return False
             za, zb = sorted([a.fields["zone"], b.fields["zone"]])
@@ -100,7 +113,7 @@ def run_paths(model, key: str, text) -> List[Tuple[Dict[str, Any], Tuple]]:
             "vstat_ext.vstat_unsupported": lambda _it, a, k: (_ for _ in ()).throw(Unsupported(f"abstract datetime does not model {a[0]}")),
             "pytz.timezone": lambda _it, a, k: Obj("abstract.tz", {"name": a[0]}),
             "zoneinfo.ZoneInfo": lambda _it, a, k: Obj("abstract.tz", {"name": a[0]}),
-            "datetime.timedelta": timedelta,
+            "datetime.timedelta": timedelta, "vstat_ext.vstat_time_replace": time_replace, "datetime.time": make_time,
         })
         ev = Obj(f"{STUB_MODULE}.StubFcEvaluator", {"_evaluation_methods": {}, "logger": Opaque("logger", kind="logging.Logger", truthy=True)})
         try:
